@@ -315,8 +315,20 @@ def r23lex(ctx: Ctx) -> RuleReport:
                f'enumerate start is {norm(start) if start is not None else "0 (default)"}', where,
                key='_lex enumerate start', positive=True)
     src = single_def(ctx, fi, it.args[0]) if it.args else None
-    rep.oblige('the loop ranges over the lines argument itself', isinstance(src, ast.Name) and src.id == p_lines,
-               f'iterates {norm(it.args[0]) if it.args else "?"}', where, key='_lex iterates lines')
+    # a filter between the lines and the counter: the counter numbers the lines that were kept, not the lines of the input
+    filt = None
+    if isinstance(src, ast.Call) and norm(src.func) == 'filter' and len(src.args) == 2 and norm(src.args[1]) == p_lines:
+        filt = f'filter({norm(src.args[0])}, {p_lines})'
+    elif isinstance(src, (ast.GeneratorExp, ast.ListComp)) and len(src.generators) == 1 and src.generators[0].ifs \
+            and norm(src.generators[0].iter) == p_lines and norm(src.elt) == norm(src.generators[0].target):
+        filt = norm(src)[:60]
+    if filt:
+        rep.add('_lex iterates lines', where, 'violation',
+                f'the counter runs over `{filt}`: lines that the filter drops are not counted, so every token after a dropped line (an empty line between two '
+                f'graphs, a leading newline) carries a line number that is too small - Token.lineno and DecodeError.lineno no longer name the line of the input')
+    else:
+        rep.oblige('the loop ranges over the lines argument itself', isinstance(src, ast.Name) and src.id == p_lines,
+                   f'iterates {norm(it.args[0]) if it.args else "?"}', where, key='_lex iterates lines')
     if not (isinstance(outer.target, ast.Tuple) and len(outer.target.elts) == 2
             and all(isinstance(e, ast.Name) for e in outer.target.elts)):
         raise AnalysisError('_lex: loop target is not (index, line)')
@@ -680,6 +692,15 @@ def r34(ctx: Ctx) -> RuleReport:
                        q.loc(r), key=key, positive=(v.value != '""' or bool(wider)))
             continue
         d = dotted(v.func) if isinstance(v, ast.Call) else None
+        raw = [x for x in ast.walk(v) if isinstance(x, ast.Call) and dotted(x.func) == 'json.dumps' and len(x.args) == 1
+               and isinstance(x.args[0], ast.Name) and x.args[0].id == p and len(ctx.cg.local_assigns(q).get(p, [])) == 0]
+        str_only = (f'isinstance({p}, str)', True) in facts
+        if raw and not str_only:
+            json_seen = True
+            rep.add(key, q.loc(r), 'violation',
+                    f'`{norm(raw[0])}` encodes the value itself, not its string form: JSON spells float("inf") as Infinity, float("nan") as NaN and True as true, '
+                    f'where str() gives inf, nan and True - for those constants quote(x) is no longer the quoting of str(x), and evaluate(quote(x)) != str(x)')
+            continue
         if d == 'json.dumps':
             json_seen = True
             arg = v.args[0] if v.args else None
